@@ -471,6 +471,17 @@ def run_dstu(ctx, c):
     ek = {"one": 1, "hi": hi}.get(c["ec"]) or rnd_int(c, "e", ono) % hi + 1
     e2 = rnd_int(c, "e2", ono) % hi + 1
     stape = b"".join(d_rej(kd, M) for kd in c["rejk"]) + d_chunk(c, "e", ek, M) + e2.to_bytes(ono, "little")
+    if c["d"] == "szero" and not c["rejk"]:
+        # a private key for which the first one-time key gives s = e + d r = 0 (mod n): the standard restarts with the next one-time key
+        F1 = RD.ec_mul(M, ek, M.P)
+        r1 = RD.felem_to_int(M, RD.f_mul(M, RD.hash_to_felem(M, H), F1[0])) if F1 is not None and F1[0] else 0
+        if r1 % n:
+            d = (-ek * pow(r1, -1, n)) % n
+            if 0 < d < n:
+                privb, Qb = RD.privkey_enc(M, d), RD.pubkey_calc(M, d)
+                if RD.sign_e(M, 16 * ono, H, privb, ek) is not None:
+                    raise RuntimeError("construction of s = 0 failed")
+                ctx.cls("dstu_s_zero_restart")
     lds = sorted(set(16 * ono + 16 * k for k in [0] + c["lds"]))
     msig0 = RD.sign(M, lds[0], H, privb, stape)
     half0 = lds[0] // 16
@@ -567,7 +578,7 @@ REJD = st.lists(st.sampled_from(["zero", "top"]), max_size=2)
 CURVES = [0, 0, 0, 0, 0, 0, 1, 1, 1, 2, 2, 2, 3, 3, 3, 4, 4, 4, 5, 5, 6, 6, 7, 7, 8, 8, 9]
 S_DSTU = st.fixed_dictionaries({
     "curve": st.sampled_from(CURVES), "bp": st.sampled_from([0, 0, 0, 1]), "seed": SEED,
-    "d": st.sampled_from(["rnd", "rnd", "one", "hi", "nm1"]), "ec": st.sampled_from(["rnd", "rnd", "one", "hi"]), "hig": st.booleans(),
+    "d": st.sampled_from(["rnd", "rnd", "one", "hi", "nm1", "szero"]), "ec": st.sampled_from(["rnd", "rnd", "one", "hi"]), "hig": st.booleans(),
     "h": st.sampled_from(["rnd32", "rnd32", "empty", "zero32", "ones64", "one", "topbit", "short", "exact", "long"]),
     "rej": REJD, "rejk": REJD, "lds": st.lists(st.sampled_from([1, 2, 3, 7, 40]), max_size=2, unique=True), "ldi": st.integers(0, 2),
     "alt": st.sampled_from(["sigbit", "sigbit", "sigbit", "padbit", "r0", "s0", "rn", "sn", "rpn", "spn", "sneg", "hbit", "hbit", "hsame", "h01", "ldother",
